@@ -83,6 +83,23 @@ fn ref_join(p: &[&str], sep: &[u8]) -> Buf {
     o
 }
 
+/// reference for `<[&[T]]>::concat` (at most 6 elements in total)
+fn ref_slice_concat(pieces: &[&[u16]]) -> ([u16; 6], usize) {
+    let mut want = [0u16; 6];
+    let mut wn = 0;
+    let mut i = 0;
+    while i < pieces.len() {
+        let mut j = 0;
+        while j < pieces[i].len() {
+            want[wn] = pieces[i][j];
+            wn += 1;
+            j += 1;
+        }
+        i += 1;
+    }
+    (want, wn)
+}
+
 /// The bytes of an `ArrayStr<N>` (`struct ArrayStr<const N: usize>([u8; N])`, private field) without going
 /// through `as_str`, whose `core::str::from_utf8` costs CBMC more than the code under test
 /// (`as_str` itself is exercised in `c20_array_str_as_str`).  A one-field struct of size N has its
@@ -167,19 +184,7 @@ fn slice_concat_case<S: Src, const N: usize>(s: &mut S) -> Seen {
     let all: [&[u16]; 3] = [&rawv[0][..l0], &rawv[1][..l1], &rawv[2][..l2]];
     let n = s.upto(3);
     let pieces = &all[..n];
-    // reference for `<[&[T]]>::concat`
-    let mut want = [0u16; 6];
-    let mut wn = 0;
-    let mut i = 0;
-    while i < pieces.len() {
-        let mut j = 0;
-        while j < pieces[i].len() {
-            want[wn] = pieces[i][j];
-            wn += 1;
-            j += 1;
-        }
-        i += 1;
-    }
+    let (want, wn) = ref_slice_concat(pieces);
     // what `slice_concat!` expands to
     let len = konst_kernel::slice::concat_sum_lengths(pieces);
     chk!(s, len == wn, "C20.slice_concat_sum_lengths.eq_sum_of_lengths");
@@ -534,23 +539,79 @@ harness! {
 // ---------------------------------------------------------------------------
 // spec adequacy: the references above vs the real std functions
 
+/// any valid UTF-8 string of exactly `L` bytes (concrete length: std's `join` is affordable for CBMC only then)
+fn fixed<'a, S: Src, const L: usize>(s: &mut S, buf: &'a mut [u8; L]) -> &'a str {
+    *buf = s.bytes();
+    let ok = utf8_ok(&buf[..]);
+    s.assume(ok);
+    unsafe { core::str::from_utf8_unchecked(&buf[..]) }
+}
+
 harness! {
-    /// kind=bounded tier=thorough bound="spec adequacy: ref_concat/ref_join/ref_concat_chars vs <[&str]>::concat, <[&str]>::join, collect::<String>; 0..=3 pieces of <=2 bytes, separator <=2 bytes, 0..=2 chars"
-    #[kani::unwind(18)]
-    fn c20_spec_vs_std(s) {
-        let (a, b, c) = (BStr::<2>::any(s), BStr::<2>::any(s), BStr::<2>::any(s));
-        let sp = BStr::<2>::any(s);
-        let all = [a.as_str(), b.as_str(), c.as_str()];
-        let n = s.upto(3);
-        let pieces = &all[..n];
-        let cat: String = pieces.concat();
-        chk!(s, eq_bytes(cat.as_bytes(), ref_concat(pieces).bytes()), "SPEC.ref_concat.eq_std_concat");
-        let joined: String = pieces.join(sp.as_str());
-        chk!(s, eq_bytes(joined.as_bytes(), ref_join(pieces, sp.as_bytes()).bytes()), "SPEC.ref_join.eq_std_join");
+    /// kind=bounded tier=thorough bound="spec adequacy: ref_concat vs <[&str]>::concat, 0..=2 pieces of <=2 bytes (any valid UTF-8)"
+    #[kani::unwind(8)]
+    fn c20_spec_concat_vs_std(s) {
+        let (a, b) = (BStr::<2>::any(s), BStr::<2>::any(s));
+        let all = [a.as_str(), b.as_str()];
+        let n = s.upto(2);
+        let cat: String = all[..n].concat();
+        chk!(s, eq_bytes(cat.as_bytes(), ref_concat(&all[..n]).bytes()), "SPEC.ref_concat.eq_std_concat");
+        cov!(s, n == 2 && cat.len() == 4, "SPEC.cover.concat_full");
+    }
+}
+
+harness! {
+    /// kind=bounded tier=thorough bound="spec adequacy: ref_concat_chars vs collect::<String>, 0..=2 chars (any chars)"
+    #[kani::unwind(11)]
+    fn c20_spec_collect_vs_std(s) {
         let chars = [s.char(), s.char()];
         let cn = s.upto(2);
         let collected: String = chars[..cn].iter().collect();
         chk!(s, eq_bytes(collected.as_bytes(), ref_concat_chars(&chars[..cn]).bytes()), "SPEC.ref_concat_chars.eq_std_collect");
-        cov!(s, n == 3 && joined.len() == 10, "SPEC.cover.join_full");
+        cov!(s, cn == 2 && collected.len() == 8, "SPEC.cover.collect_full");
+    }
+}
+
+harness! {
+    /// kind=bounded tier=thorough bound="spec adequacy: ref_join vs <[&str]>::join on concrete shapes with symbolic contents: pieces (2,0,1) with a 2-byte separator, (1,2) with an empty separator, (0,0,0) with a 1-byte separator, (2) and () with a 2-byte separator"
+    #[kani::unwind(10)]
+    fn c20_spec_join_vs_std(s) {
+        let (mut b0, mut b1, mut b2, mut e0, mut e1, mut e2) = ([0u8; 0], [0u8; 1], [0u8; 2], [0u8; 0], [0u8; 1], [0u8; 2]);
+        let (p0, p1, p2) = (fixed(s, &mut b0), fixed(s, &mut b1), fixed(s, &mut b2));
+        let (s0, s1, s2) = (fixed(s, &mut e0), fixed(s, &mut e1), fixed(s, &mut e2));
+        let l: [&str; 3] = [p2, p0, p1];
+        chk!(s, eq_bytes(l.join(s2).as_bytes(), ref_join(&l, s2.as_bytes()).bytes()), "SPEC.ref_join.eq_std_join.2_0_1_sep2");
+        let l: [&str; 2] = [p1, p2];
+        chk!(s, eq_bytes(l.join(s0).as_bytes(), ref_join(&l, s0.as_bytes()).bytes()), "SPEC.ref_join.eq_std_join.1_2_sep0");
+        let l: [&str; 3] = [p0, p0, p0];
+        chk!(s, eq_bytes(l.join(s1).as_bytes(), ref_join(&l, s1.as_bytes()).bytes()), "SPEC.ref_join.eq_std_join.0_0_0_sep1");
+        let l: [&str; 1] = [p2];
+        chk!(s, eq_bytes(l.join(s2).as_bytes(), ref_join(&l, s2.as_bytes()).bytes()), "SPEC.ref_join.eq_std_join.single");
+        let l: [&str; 0] = [];
+        chk!(s, eq_bytes(l.join(s2).as_bytes(), ref_join(&l, s2.as_bytes()).bytes()), "SPEC.ref_join.eq_std_join.empty_list");
+        cov!(s, b2[0] >= 0xC2 && e2[0] >= 0xC2, "SPEC.cover.join_multibyte");
+    }
+}
+
+harness! {
+    /// kind=bounded tier=thorough bound="spec adequacy: ref_slice_concat vs <[&[u16]]>::concat, 0..=2 slices of <=2 elements (any values)"
+    #[kani::unwind(8)]
+    fn c20_spec_slice_concat_vs_std(s) {
+        let rawv = [[s.u16(), s.u16()], [s.u16(), s.u16()]];
+        let (l0, l1) = (s.upto(2), s.upto(2));
+        let all: [&[u16]; 2] = [&rawv[0][..l0], &rawv[1][..l1]];
+        let n = s.upto(2);
+        let v: Vec<u16> = all[..n].concat();
+        let (want, wn) = ref_slice_concat(&all[..n]);
+        let mut same = v.len() == wn;
+        let mut i = 0;
+        while i < 4 {
+            if same && i < wn && v[i] != want[i] {
+                same = false;
+            }
+            i += 1;
+        }
+        chk!(s, same, "SPEC.ref_slice_concat.eq_std_concat");
+        cov!(s, n == 2 && wn == 4, "SPEC.cover.slice_concat_full");
     }
 }
